@@ -2,6 +2,8 @@ package main
 
 import (
 	"fmt"
+	"net"
+	"os"
 	"strconv"
 	"strings"
 	"sync"
@@ -51,7 +53,10 @@ func c20Termination(r *verdict.Run, race bool) {
 		"stalled-reader", "stalled-reader-rst",
 		// many idle clients plus clients that keep asking for INFO / CLIENT LIST / CLIENT INFO / DBSIZE and keep connecting
 		// and disconnecting while the termination runs (the commands that look at the client table and the statistics)
-		"busy-introspection"}
+		"busy-introspection",
+		// clients that connect at the very moment of the termination (a storm of connection attempts while Close() runs):
+		// whichever of them got as far as being served must be closed like everybody else
+		"connect-storm"}
 	parallel(len(scenarios), 6, func(i int) {
 		sc := scenarios[i]
 		c, err := startChild(race)
@@ -249,6 +254,35 @@ func c20Termination(r *verdict.Run, race bool) {
 			time.Sleep(100 * time.Millisecond) // the emulator notices (or not) before it is closed
 		}
 		log = append(log, fmt.Sprintf("%d clients of kinds for scenario %s", len(clients), sc))
+		var stormStop atomic.Bool
+		var stormWg sync.WaitGroup
+		var stormMu sync.Mutex
+		var stormConns []*wire.Conn
+		var stormAttempts atomic.Int64
+		if sc == "connect-storm" {
+			for g := 0; g < 12; g++ {
+				stormWg.Add(1)
+				go func() {
+					defer stormWg.Done()
+					for !stormStop.Load() {
+						stormAttempts.Add(1)
+						nc, err := net.DialTimeout("tcp", fmt.Sprintf("127.0.0.1:%d", e.port), 200*time.Millisecond)
+						if err != nil {
+							continue
+						}
+						cn := &wire.Conn{C: nc, Proto: 2, Timeout: 500 * time.Millisecond, Port: e.port}
+						if v, err := cn.Do("PING"); err == nil && v.Text() == "PONG" {
+							stormMu.Lock()
+							stormConns = append(stormConns, cn)
+							stormMu.Unlock()
+						} else {
+							cn.Close()
+						}
+					}
+				}()
+			}
+			time.Sleep(30 * time.Millisecond)
+		}
 		// terminate
 		t0 := time.Now()
 		var termErr error
@@ -260,6 +294,25 @@ func c20Termination(r *verdict.Run, race bool) {
 			_, termErr = c.Do(6*time.Second, "close %s", e.name)
 		}
 		took := time.Since(t0)
+		if sc == "connect-storm" {
+			time.Sleep(20 * time.Millisecond)
+			stormStop.Store(true)
+			stormWg.Wait()
+			stormMu.Lock()
+			// the connections that were served at some point are probed like the pre-existing ones (the most recent 400)
+			if len(stormConns) > 400 {
+				for _, cn := range stormConns[:len(stormConns)-400] {
+					cn.Close()
+				}
+				stormConns = stormConns[len(stormConns)-400:]
+			}
+			for _, cn := range stormConns {
+				clients = append(clients, &lifeClient{kind: "idle", cn: cn})
+			}
+			stormMu.Unlock()
+			r.Count("connect_storm_attempts", stormAttempts.Load())
+			r.Count("connect_storm_connections_served", int64(len(stormConns)))
+		}
 		r.Eval(1)
 		rep := map[string]any{"scenario": sc, "clients": len(clients), "close_took_ms": took.Milliseconds()}
 		if termErr != nil {
@@ -556,10 +609,11 @@ func c20MultiInstance(r *verdict.Run, race bool) {
 var _ sync.Mutex
 
 func checkC20(r *verdict.Run) {
-	r.Rule = "scenarios run inside child processes through the emulator's Go API (RequestTermination / WaitForTermination / Close), observed through sockets: (1) termination with 17 client populations (150 idle clients next to 8 that poll INFO / CLIENT LIST / CLIENT INFO / DBSIZE and connect and disconnect all the time, idle, half a command sent, pipeline in flight, inside MULTI, blocked with timeout 0 and 10 s, 200 connections, mixtures, and the same kinds after the clients went away by close / reset / half-close before the termination, alone or next to live clients, clients whose blocking command was dispatched but not yet blocked, and clients that do not read 48 MiB of replies - still connected or reset while the emulator was writing): Close must return within 6 s and afterwards every pre-existing connection must get EOF/reset on its next request (never a normal reply, never a write), new connections are refused, and within 3 s no goroutine of the emulator is left; " +
+	r.Rule = "scenarios run inside child processes through the emulator's Go API (RequestTermination / WaitForTermination / Close), observed through sockets: (1) termination with 18 client populations (a storm of clients connecting while Close() runs, 150 idle clients next to 8 that poll INFO / CLIENT LIST / CLIENT INFO / DBSIZE and connect and disconnect all the time, idle, half a command sent, pipeline in flight, inside MULTI, blocked with timeout 0 and 10 s, 200 connections, mixtures, and the same kinds after the clients went away by close / reset / half-close before the termination, alone or next to live clients, clients whose blocking command was dispatched but not yet blocked, and clients that do not read 48 MiB of replies - still connected or reset while the emulator was writing): Close must return within 6 s and afterwards every pre-existing connection must get EOF/reset on its next request (never a normal reply, never a write), new connections are refused, and within 3 s no goroutine of the emulator is left; " +
 		"(2) port/state reuse: Close then a new emulator on the same port in the same process, repeatedly, with predecessor connections still open and writing: it must bind and be empty in all 16 databases; (3) two emulators in one process: data, CLIENT LIST, CLIENT KILL, CLIENT UNBLOCK must not cross instances, closing one leaves the other serving. distinct = scenarios and cycles"
 	c20Termination(r, false)
 	c20PortReuse(r, tierPick(r, 50, 1000))
+	c20ConnectStorm(r, tierPick(r, 40, 400))
 	c20MultiInstance(r, false)
 	if r.Tier == "thorough" {
 		c20Termination(r, true)
@@ -591,4 +645,145 @@ func c20Waiting(dump string) string {
 		}
 	}
 	return strings.Join(out, "\n")
+}
+
+// c20ConnectStorm: start, let clients connect in a storm, Close(), over and over: a connection that was accepted at the
+// very moment of the termination and got as far as being served must be dead afterwards like every other one, and
+// Close() must return.
+func c20ConnectStorm(r *verdict.Run, cycles int) {
+	c, err := startChild(false)
+	if err != nil {
+		r.Inconclusive("cannot start child")
+		return
+	}
+	defer c.Stop()
+	served, attempts := int64(0), int64(0)
+	for cycle := 0; cycle < cycles; cycle++ {
+		if !c.Alive() {
+			r.Report("life/connect-storm/crash", "the emulator host died during the connect storm:\n"+headLines(c.StderrHead(20000), 30), nil)
+			return
+		}
+		e, err := startEmu(c, "")
+		if err != nil {
+			r.Inconclusive("infra: " + err.Error())
+			return
+		}
+		var stop atomic.Bool
+		var wg sync.WaitGroup
+		var mu sync.Mutex
+		var conns []*wire.Conn
+		var att atomic.Int64
+		for g := 0; g < 10; g++ {
+			wg.Add(1)
+			go func() {
+				defer wg.Done()
+				for !stop.Load() {
+					att.Add(1)
+					nc, err := net.DialTimeout("tcp", fmt.Sprintf("127.0.0.1:%d", e.port), 200*time.Millisecond)
+					if err != nil {
+						continue
+					}
+					// (no round trip here: the connections are only probed after Close() has returned)
+					cn := &wire.Conn{C: nc, Proto: 2, Timeout: 500 * time.Millisecond, Port: e.port}
+					mu.Lock()
+					conns = append(conns, cn)
+					mu.Unlock()
+				}
+			}()
+		}
+		time.Sleep(time.Duration(5+cycle%20) * time.Millisecond)
+		_, cerr := c.Do(8*time.Second, "close %s", e.name)
+		stop.Store(true)
+		wg.Wait()
+		r.Eval(1)
+		attempts += att.Load()
+		served += int64(len(conns))
+		if cerr != nil {
+			dump := ""
+			if c.Alive() {
+				dump = c16Busy(c.SigQuitDump())
+			}
+			r.Report("life/connect-storm/close-does-not-return", fmt.Sprintf("cycle %d: Close() did not return within 8 s while clients kept connecting (%v)\n%s", cycle, cerr, dump), map[string]any{"cycle": cycle})
+			return
+		}
+		survivors := 0
+		example := ""
+		// every connection made during the storm is probed (which of them raced with the termination cannot be told
+		// from the client side: a connection sits in the accept backlog for a while): first a request to all, then the
+		// replies - a dead connection fails at once, only a surviving one answers
+		for _, cn := range conns {
+			cn.C.SetWriteDeadline(time.Now().Add(200 * time.Millisecond))
+			cn.C.Write(resp.Cmd("SET", "written-after-close", "1"))
+		}
+		for _, cn := range conns {
+			if v, _, err := cn.ReadValue(300 * time.Millisecond); err == nil {
+				survivors++
+				example = v.String()
+			}
+			cn.Close()
+		}
+		if survivors > 0 {
+			r.Report("life/connect-storm/connection-survives-close", fmt.Sprintf("cycle %d: %d connections that were accepted while Close() ran are still served after it returned (e.g. SET -> %s)", cycle, survivors, example), map[string]any{"cycle": cycle})
+			return
+		}
+		c.Ctl("forget %s", e.name)
+	}
+	// the same with the clients inside the emulator's process (they share its scheduler, as in a user's test binary)
+	inproc, made := 0, int64(0)
+	// (three storms at a time on three emulators of the process: connections of one are torn down while the others
+	// accept and terminate - the client table and the statistics are shared by all emulators of a process)
+	for cycle := 0; cycle < cycles && c.Alive(); cycle += 3 {
+		type res struct {
+			out string
+			err error
+		}
+		results := make([]res, 3)
+		var wg sync.WaitGroup
+		for k := 0; k < 3; k++ {
+			port, err := host.FreePort()
+			if err != nil {
+				continue
+			}
+			wg.Add(1)
+			go func(k, port int) {
+				defer wg.Done()
+				time.Sleep(time.Duration(k*(1+cycle%4)) * time.Millisecond)
+				results[k].out, results[k].err = c.Do(30*time.Second, "stormclose %d %d %d", port, 8, 2000+((cycle+k)%5)*1000)
+			}(k, port)
+		}
+		wg.Wait()
+		for k := range results {
+			out, err := results[k].out, results[k].err
+			if err != nil {
+				r.Report("life/connect-storm/close-does-not-return", fmt.Sprintf("in-process cycle %d: no answer from the storm within 30 s (%v)", cycle+k, err), nil)
+				return
+			}
+			if out == "" {
+				continue
+			}
+			if os.Getenv("C20_DEBUG") != "" {
+				fmt.Println("stormclose:", out)
+			}
+			f := map[string]string{}
+			for _, kv := range strings.Fields(out) {
+				if p := strings.IndexByte(kv, '='); p > 0 {
+					f[kv[:p]] = kv[p+1:]
+				}
+			}
+			r.Eval(1)
+			inproc++
+			n, _ := strconv.Atoi(f["conns"])
+			made += int64(n)
+			if f["survivors"] != "0" || f["hung"] != "false" {
+				r.Report("life/connect-storm/connection-survives-close", fmt.Sprintf("in-process cycle %d: %s connections were made while the emulator was being closed; %s of them are still served after Close() (which hung: %s)", cycle+k, f["conns"], f["survivors"], f["hung"]), map[string]any{"cycle": cycle + k, "result": out})
+				return
+			}
+		}
+	}
+	r.Count("connect_storm_in_process_cycles", int64(inproc))
+	r.Count("connect_storm_in_process_connections", made)
+	r.Count("connect_storm_cycles", int64(cycles))
+	r.Count("connect_storm_attempts", attempts)
+	r.Count("connect_storm_connections_served", served)
+	r.Distinct("connect-storm")
 }
